@@ -31,6 +31,9 @@ CLAIMED = {
  "C09": ("exploration", "model-based PBT: generated iterator call sequences compared call by call with a model iterator",
          "Generated snapshot shapes (single/many segments, tombstones first/last/consecutive, lower level present/exhausted/only source; collection, child and store snapshots), generated bounds (nil, non-nil empty, equal, inverted, sharing prefixes, neighbours of keys) and call sequences of Next/SeekTo/Current incl. backward seeks and seeks after exhaustion; after every call the return value, key and value must equal a model iterator's. " + NOTE_SCHED,
          "5.C09"),
+ "C12": ("exploration", "model-based PBT over SnapshotPrevious / SnapshotRevert programs with an oracle of the store's exposed history",
+         "Store-backed programs of batches, persistence rounds, history walks of generated depth, reverts to generated targets (collection closed first, reopened on the store afterwards), reopen and continuation; the oracle records what the store exposed after every footer-writing round (from Store.Stats deltas), reset by compaction; walks must yield it newest-first and completely, reverts must succeed for snapshots obtained since the last compaction and make the target the current and durable content. " + NOTE_SCHED,
+         "5.C12"),
  "C13": ("exploration", "model-based PBT against an application lower level implementing the documented update protocol, with generated update failures",
          "Collection over an application-supplied lower level (immutable ordered-map snapshots, children supported) that applies every `higher` snapshot by the documented protocol; generated histories of Set/Del/Merge batches, merger cycles, parked / failing / retried LowerLevelUpdate calls, CachePersisted on/off, plus free-running cases with MaxDirtyOps / MaxDirtyKeyValBytes back-pressure; the lower level must equal the reference prefix after every completed update, a failed update must be followed by an identical offer, successful updates must leave non-decreasing batch-prefix states, and after draining the lower level must equal the full reference. " + NOTE_SCHED,
          "5.C13"),
